@@ -33,7 +33,7 @@ def main():
             {"name": "factgen", "path": "engine/factgen", "serves_properties": sorted(CHECKS),
              "kind_free_text": "rustc_private driver (nightly) injected with RUSTC_WORKSPACE_WRAPPER under cargo check; dumps mir_built facts (CFG, resolved callees, places with field names, ADTs, impl tables) as JSON from /repo's current working tree"},
             {"name": "sa", "path": "sa", "serves_properties": sorted(CHECKS),
-             "kind_free_text": "Python rule library over the facts: CFG/dominators/must-pass-through, origin slices, call graph with CHA + EXTERNAL callbacks, lock-order graph, panic reachability, decision tables, units, sibling/field agreement"},
+             "kind_free_text": "Python rule library over the facts (rules read role-located functions in normalised views - private helpers inlined, closures of higher-order calls unfolded, sa/inline.py): CFG/dominators/must-pass-through, origin slices, call graph with CHA + EXTERNAL callbacks, lock-order graph, panic reachability, decision tables, units, sibling/field agreement"},
             {"name": "witness", "path": "engine/witness", "serves_properties": ["C13", "C03", "C16", "C02", "C04"],
              "kind_free_text": "compile_fail doctest witnesses with compiling twins (supplementary; closes who-may-write sets against external code)"},
         ],
